@@ -141,6 +141,9 @@ impl MessageDecoder {
     pub fn decode(&self, buffer: &[u8]) -> (r: Result<(StunMessage, usize), StunDecodeError>)
         ensures r is Ok ==> decoded(buffer@) == Some(r->Ok_0.0),
             r is Err ==> decoded(buffer@) is None,
+            // only a type code without a registered decoder comes out as `Unknown` (theorem_unknown_unregistered, unit rt,
+            // over MessageDecoder::decode's contract proved in unit dec); the credential mechanisms require it of what they receive
+            r is Ok ==> r->Ok_0.0.decoder_made(),
     { unimplemented!() }
 }
 // message.rs::create_stun_message: `None` asks for a fresh random transaction id
@@ -155,6 +158,8 @@ pub fn create_stun_message(method: MessageMethod, class: MessageClass, transacti
 //@include inc/fp_vocab.rs
 impl StunMessage {
     pub uninterp spec fn attrs_view(&self) -> Seq<StunAttribute>;
+    // every `Unknown` attribute of the message has a type code no decoder is registered for (defined in unit cred)
+    pub uninterp spec fn decoder_made(&self) -> bool;
 }
 pub open spec fn fp_verdict(raw: Seq<u8>, msg: StunMessage) -> Option<bool> { fp_verdict_of(raw, msg.attrs_view()) }
 //@import attrset :: stun_agent :: mod fingerprint > fn validate_fingerprint
@@ -774,7 +779,7 @@ impl StunClient {
     }
 //@item stun_agent :: mod client > impl StunClient > fn on_timeout
 //@tags C05 C06 C11 C12 C07 C15
-//@rules R3V R6 R11
+//@rules R3V R6? R11
 //@sub "self.transactions.get_mut(&transaction_id)" => "vx_tr_get_mut(&mut self.transactions, &transaction_id)"
 //@head
     broadcast use axiom_txid_key_model;
